@@ -3,7 +3,9 @@
 //! encode_as_type from example values - to the generated type named by resolve_type_path.  Nothing is judged here.
 
 use crate::{guarded, reg, settings};
+use scale_typegen::typegen::ir::type_ir::CompositeIR;
 use scale_typegen::typegen::ir::ToTokensWithSettings;
+use scale_typegen::typegen::type_params::TypeParameters;
 use scale_typegen::TypeGenerator;
 use serde_json::{json, Value};
 use std::io::{BufRead, BufReader, Write};
@@ -52,12 +54,42 @@ pub fn emit(cases_path: &str, out_rs: &str, out_manifest: &str, nseeds: u64) {
                 body.push_str(&format!(
                     "        crate::check::<{path_src}>({cid}, {id}, {k}, &{bytes:?});\n"
                 ));
-                checks.push(json!({"id": id, "k": k, "seed": seed, "bytes": bytes}));
+                checks.push(json!({"id": id, "k": k, "seed": seed, "bytes": bytes, "variant": -1}));
+            }
+        }
+        // C18: standalone structs built from the field list of every variant of the types emitted without generic parameters; the
+        // payload of an encoded enum value (everything after the index byte) must be an encoding of the struct of that variant
+        let mut comps = String::new();
+        for t in &types.types {
+            let scale_info::TypeDef::Variant(var) = &t.ty.type_def else { continue };
+            if t.ty.path.namespace().is_empty() || t.ty.type_params.iter().any(|p| p.ty.is_some()) {
+                continue;
+            }
+            for seed in 0..(4 * nseeds) {
+                let Ok(Ok(v)) = guarded(|| scale_typegen_description::scale_value_from_seed(t.id, &types, seed)) else { continue };
+                let mut bytes = vec![];
+                if !matches!(guarded(|| scale_value::scale::encode_as_type(&v, t.id, &types, &mut bytes)), Ok(Ok(()))) || bytes.is_empty() {
+                    continue;
+                }
+                let Some(variant) = var.variants.iter().find(|x| x.index == bytes[0]) else { continue };
+                let built = guarded(|| -> Result<String, scale_typegen::TypegenError> {
+                    let g = TypeGenerator::new(&types, &st);
+                    let mut tp = TypeParameters::from_scale_info(&[]);
+                    let kind = g.create_composite_ir_kind(&variant.fields, &mut tp)?;
+                    let ident = syn::parse_str::<proc_macro2::Ident>(&variant.name)?;
+                    let comp = CompositeIR::new(ident, kind, Default::default());
+                    Ok(g.upcast_composite(&comp).to_token_stream(&st).to_string())
+                });
+                let Ok(Ok(struct_src)) = built else { continue };
+                let k = checks.len();
+                comps.push_str(&format!("    pub mod comp_{k} {{ use super::types; {struct_src} }}\n"));
+                body.push_str(&format!("        crate::check::<comp_{k}::{}>({cid}, {}, {k}, &{:?});\n", variant.name, t.id, &bytes[1..]));
+                checks.push(json!({"id": t.id, "k": k, "seed": seed, "bytes": &bytes[1..], "variant": variant.index}));
             }
         }
         let start = line_no;
         let text = format!(
-            "pub mod case_{cid} {{\n    {module_src}\n    pub fn run() {{\n{body}    }}\n}}\n"
+            "pub mod case_{cid} {{\n    {module_src}\n{comps}    pub fn run() {{\n{body}    }}\n}}\n"
         );
         line_no += text.matches('\n').count();
         rs.push_str(&text);
